@@ -7,3 +7,4 @@ EXPLANATION = ("Bounded runtime contracts on the real tf_pwa.data helpers (split
 ASSUMPTIONS = ["A-LIB: numpy text / npy / npz serialisation and tf.concat / tf.boolean_mask / tf.data are trusted through the exact round-trip comparison only"]
 
 from vt.contracts import iface_data  # noqa: F401,E402
+from vt.contracts import loops  # noqa: F401,E402
